@@ -1,5 +1,6 @@
 import DcVerif.Lemmas.RingHB
 import DcVerif.Lemmas.RingMultiSafe
+import DcVerif.Lemmas.RingMultiHBW
 /-!
 # C05 — ring buffer slots: no overwrite before consumption, conflicting slot accesses ordered by happens-before,
 a producer a full ring ahead blocks (single-producer pipelines)
@@ -35,10 +36,19 @@ batch sizes (each ≥ 1), wait strategy (spin *and* blocking) and **every schedu
   *every* stage, and the previous occupant `w − n` of the slot is in every handler's log), `c05_multi_no_lap` (`i < w < i + n`
   against every handler that is handling `i`), `c05_multi_writers_distinct_slots` (two writers never write the same slot at
   the same time).
+* (g) multi-producer sequencer, happens-before (`Model/RingMultiHB.lean`: vector clocks with one entry per writer thread and
+  per handler; thread clocks for writers, draining thread, handlers; location clocks for the cursor, both watermarks, every
+  handler cursor and every bitmap **word**; plain stores / loads / RMWs with the orderings of `Gen.Orderings`): every ring
+  size `2^e`, topology, wait strategy, number of writers, batch lists, **every schedule** — `c05_multi_race_free_reachable`
+  (R1, R2, R4 before every handler access, R3 and writer/writer-across-laps before every slot write),
+  `c05_multi_reader_knows`, `c05_multi_writer_knows`, `c05_multi_writer_knows_slot_history` /
+  `c05_multi_reader_knows_slot_history` (every conflicting access already made to the slot, according to the ghost access
+  logs, is known to the thread about to access it), `c05_multi_orderings_used` (the five facts about the source's orderings the
+  proof needs), `c05_multi_relaxed_cas_races` / `c05_multi_relaxed_fetch_or_races` (the table is load-bearing).
 
-Partial: happens-before (c) is proved for the single-producer sequencer only (for the multi-producer sequencer the slot
-arithmetic (f) is proved, the ordering is judged on implementation events by the driver); happens-before over an interleaving semantics stands in for the C11 memory model; the mutex / condvar /
-`is_done` edges are deliberately not used (fewer edges ⇒ harder to prove ⇒ sound).
+Partial: happens-before over an interleaving semantics stands in for the C11 memory model; the mutex / condvar / `is_done` /
+spawn / join edges are deliberately not used (fewer edges ⇒ harder to prove ⇒ sound); ordering between two handlers of one
+stage is not claimed (F9); for the multi-producer sequencer the ring size is a power of two (as the bitmap requires).
 -/
 namespace C05
 open Ring RingHB Gen.Orderings
@@ -447,5 +457,245 @@ example : (demoTwoWriters.wr 0).pc = .write ∧ (demoTwoWriters.wr 0).w = 1 ∧ 
     (demoTwoWriters.wr 1).w = 2 := by decide +kernel
 
 end Multi
+
+/-! ## (g) multi-producer sequencer: happens-before -/
+section MultiHB
+open RingMulti
+open RingMultiHB (HMSt Ords srcOrds OrdsOk RaceFreeM CoversM KnowsW wlog mkMH runMH HMGood)
+
+/-- the facts about the source's memory orderings the proof of (g) rests on (`Gen/Orderings.lean` is regenerated from
+`atomic_sequence_ordered.rs` and `bit_map.rs` on every run): sequence loads (`get`: handler cursors, cursor, low watermark)
+are at least `Acquire`, sequence stores (`set`: handler cursors, low watermark) at least `Release`, the **successful
+`compare_and_swap`** (cursor) at least `Release`, `BitMap::set`'s `fetch_or` at least `Release`, `BitMap::is_set`'s load at
+least `Acquire`. Weakening any of them in the source makes this theorem — and with it `c05_multi_race_free_reachable` — fail.
+Not needed (an RMW continues the release sequences it reads from whatever its own ordering, and the cursor, the high watermark
+and the bitmap words are only ever modified by RMWs): the acquire side of the successful CAS, the failure ordering of the CAS,
+the ordering of `BitMap::unset`'s `fetch_and`. -/
+theorem c05_multi_orderings_used :
+    seqGet.isAcquire = true ∧ seqSet.isRelease = true ∧ seqCasOk.isRelease = true ∧ bmOr.isRelease = true ∧
+    bmLoad.isAcquire = true := by decide
+
+theorem c05_multi_orderings_ok : OrdsOk srcOrds :=
+  ⟨c05_multi_orderings_used.1, c05_multi_orderings_used.2.1, c05_multi_orderings_used.2.2.1,
+   c05_multi_orderings_used.2.2.2.1, c05_multi_orderings_used.2.2.2.2⟩
+
+/-- the three generated word-index functions of the bitmap are one function: the clocks of `set` / `is_set` / `unset` of one
+sequence meet on the same word -/
+theorem c05_multi_bitmap_word_index (b : Gen.BitMap.BitMap) (q : Nat) :
+    Gen.BitMap.set_index b q = Gen.BitMap.is_set_index b q ∧ Gen.BitMap.unset_index b q = Gen.BitMap.is_set_index b q :=
+  ⟨rfl, rfl⟩
+
+/-- a state (system + clocks) reachable in a well-formed multi-producer pipeline with the orderings of the source: any ring
+size `2^e`, topology, wait strategy, any number of writer threads with any batch lists, **any schedule** -/
+def HMReachable (s : HMSt) : Prop :=
+  ∃ (e K : Nat) (h : Nat → Nat) (blocking : Bool) (batches : List (List Nat)) (sched : List MTid),
+    0 < K ∧ (∀ k, k < K → 0 < h k) ∧ (∀ l, l ∈ batches → ∀ b, b ∈ l → 1 ≤ b) ∧
+    s = RingMultiHB.runSrc (mkMH (2 ^ e) K h blocking batches) sched
+
+/-- the clocks are ghost state: the system component of a clocked run is the plain run of `Model/RingMulti.lean` -/
+theorem c05_multi_clocks_are_ghost (n K : Nat) (h : Nat → Nat) (blocking : Bool) (batches : List (List Nat))
+    (sched : List MTid) :
+    (RingMultiHB.runSrc (mkMH n K h blocking batches) sched).x = runM (mkM n K h blocking batches) sched :=
+  RingMultiHB.runMH_x srcOrds _ sched
+
+theorem hmreachable_x {s : HMSt} (hr : HMReachable s) : MReachableWF s.x ∧ ∃ e, s.x.s.n = 2 ^ e := by
+  obtain ⟨e, K, h, bl, bs, sched, hK, hh, hb, rfl⟩ := hr
+  refine ⟨⟨2 ^ e, K, h, bl, bs, sched, hK, hh, hb, c05_multi_clocks_are_ghost _ K h bl bs sched⟩, e, ?_⟩
+  rw [c05_multi_clocks_are_ghost, runM_n]; rfl
+
+theorem mreachable_lifts {x : MSt} (hr : MReachableWF x) (e : Nat) (hn : x.s.n = 2 ^ e) : ∃ s, HMReachable s ∧ s.x = x := by
+  obtain ⟨n, K, h, bl, bs, sched, hK, hh, hb, rfl⟩ := hr
+  have : n = 2 ^ e := by rw [runM_n] at hn; exact hn
+  subst this
+  exact ⟨_, ⟨e, K, h, bl, bs, sched, hK, hh, hb, rfl⟩, c05_multi_clocks_are_ghost _ K h bl bs sched⟩
+
+/-- the clock invariant (and the release-safety invariant of the underlying system) holds in every reachable state -/
+theorem c05_multi_hb_invariant {s : HMSt} (hr : HMReachable s) : HMGood s := by
+  obtain ⟨e, K, h, bl, bs, sched, hK, hh, hb, rfl⟩ := hr
+  exact RingMultiHB.hmgood_run srcOrds c05_multi_orderings_ok _ sched (RingMultiHB.hmgood_init e K h bl bs hK hh hb)
+
+/-- **C05 (g)**: for every ring size `2^e`, topology, wait strategy, number of writer threads, batch lists and **every
+schedule**, with the orderings the source uses, before every slot access:
+* reader (`RaceFreeM.reader`): a handler `(k,j)` about to handle sequence `i` knows the slot write of `i` by its claimant
+  (R1 — through the claimant's `fetch_or` on the bitmap word, a publisher's scan of that word, that publisher's successful CAS
+  on the cursor and the handler's acquire load of the cursor or of an earlier stage's cursor), indeed of every sequence `≤ i`,
+  every access of `i` by every handler of every earlier stage (R2) and every handler's access of `i − n` (R4);
+* writer (`RaceFreeM.writer`): a writer thread about to write `w` knows every handler's access of `w − n` (R3);
+* writer / writer (`RaceFreeM.writerW`): it also knows the slot write of every sequence `≤ w − n`, whichever writer made it —
+  the earlier writes to the same slot; two writers that are about to write at the same time write different slots
+  (`c05_multi_writers_distinct_slots`).
+So every pair of conflicting accesses to one slot — except pairs inside one stage, F9 — is ordered by happens-before. -/
+theorem c05_multi_race_free_reachable {s : HMSt} (hr : HMReachable s) : RaceFreeM s :=
+  RingMultiHB.raceFreeM_of_inv s (c05_multi_hb_invariant hr)
+
+/-- (g) spelled out for a handler: R1 (the write of `i` is the `m`-th write of some writer `a`, and the handler knows more
+than `m` writes of `a`), R2, R4 (the previous occupant `i − n`: its write and every handler's access) -/
+theorem c05_multi_reader_knows {s : HMSt} (hr : HMReachable s) (k j : Nat) (hk : k < s.x.s.K) (hj : j < s.x.s.h k)
+    (hpc : (s.x.s.cons k j).pc = .handle) (hi : (s.x.s.cons k j).i ≤ (s.x.s.cons k j).avail) :
+    (∃ a m, (wlog s.x.written a)[m]? = some (s.x.s.cons k j).i ∧ m < (s.vcC k j).pw a) ∧
+    (∀ k' j', k' < k → j' < s.x.s.h k' → (s.x.s.cons k j).i ≤ (s.vcC k j).ha k' j') ∧
+    (∀ k' j', k' < s.x.s.K → j' < s.x.s.h k' → (s.x.s.cons k j).i ≤ (s.vcC k j).ha k' j' + s.x.s.n) ∧
+    (s.x.s.n < (s.x.s.cons k j).i → KnowsW s.x.written (s.vcC k j) ((s.x.s.cons k j).i - s.x.s.n)) := by
+  have hc := (c05_multi_race_free_reachable hr).reader k j hk hj hpc hi
+  have hci := (c05_multi_hb_invariant hr).1.1.1.2.1.2 k j hk hj
+  have h1 := hci.iGe hpc
+  have h2 := hci.nextEq (by simp [hpc])
+  exact ⟨hc.pw _ (by omega) (Nat.le_refl _), fun k' j' hk' hj' => hc.prev k' j' hk' (by omega) hj', hc.old,
+    fun hn => hc.pw _ (by omega) (by omega)⟩
+
+/-- (g) spelled out for a writer thread: R3 and writer/writer across laps -/
+theorem c05_multi_writer_knows {s : HMSt} (hr : HMReachable s) (a : Nat) (ha : a < s.x.P)
+    (hpc : (s.x.wr a).pc = .write) (hw : (s.x.wr a).w ≤ (s.x.wr a).hi) :
+    (∀ k j, k < s.x.s.K → j < s.x.s.h k → (s.x.wr a).w ≤ (s.vcW a).ha k j + s.x.s.n) ∧
+    (∀ q, 1 ≤ q → q + s.x.s.n ≤ (s.x.wr a).w → ∃ b m, (wlog s.x.written b)[m]? = some q ∧ m < (s.vcW a).pw b) :=
+  ⟨(c05_multi_race_free_reachable hr).writer a ha hpc hw, (c05_multi_race_free_reachable hr).writerW a ha hpc hw⟩
+
+/-- (g) against the ghost access logs — **every conflicting access already made to the slot is known**, for a writer thread
+about to write `w`: every slot write in the log `written` that went to the same slot (`q ≡ w mod n`), whichever writer made it
+(write / write), and every access in the log of any handler to that slot (read or mutation / overwrite). The logged accesses to
+the slot are all at least one lap below `w` (each sequence is written once, all live sequences lie in a window of fewer than `n`
+above the cursor, handlers are handed nothing above the cursor), so `RaceFreeM.writerW` and R3 cover them. -/
+theorem c05_multi_writer_knows_slot_history {s : HMSt} (hr : HMReachable s) (b : Nat) (hb : b < s.x.P)
+    (hpc : (s.x.wr b).pc = .write) (hw : (s.x.wr b).w ≤ (s.x.wr b).hi) :
+    (∀ q a, (q, a) ∈ s.x.written → q % s.x.s.n = (s.x.wr b).w % s.x.s.n → KnowsW s.x.written (s.vcW b) q) ∧
+    (∀ k j, k < s.x.s.K → j < s.x.s.h k → ∀ q, q ∈ (s.x.s.cons k j).log → q % s.x.s.n = (s.x.wr b).w % s.x.s.n →
+      q ≤ (s.vcW b).ha k j) := by
+  obtain ⟨hx, e, hn⟩ := hmreachable_x hr
+  have hS := mreachableWF_safe hx e hn
+  have hL := RingMultiHB.mreachableWF_log hx e hn
+  have hrf := c05_multi_race_free_reachable hr
+  refine ⟨fun q a hq hres => ?_, fun k j hk hj q hq hres => ?_⟩
+  · obtain ⟨h1, h2⟩ := RingMultiHB.earlier_write_lap_below s.x hS hL b hb hpc hw q a hq hres
+    exact hrf.writerW b hb hpc hw q h1 h2
+  · have h1 := RingMultiHB.log_le_cursor s.x.s hS.1.1.2.1 k j hk hj q hq
+    have h2 := (writing_above_cursor s.x hS b hb hpc hw).1
+    have h3 := RingMultiHB.lap_of_mod_eq hres (by omega)
+    have h4 := hrf.writer b hb hpc hw k j hk hj
+    omega
+
+/-- … and for a handler about to access the slot of `i`: every slot write in the log that went to the same slot is known to it
+(write / read, write / mutation) — no sequence above `i` has been written to that slot, since a writer only writes `q` once every
+handler has published a cursor above `q − n`. -/
+theorem c05_multi_reader_knows_slot_history {s : HMSt} (hr : HMReachable s) (k j : Nat) (hk : k < s.x.s.K)
+    (hj : j < s.x.s.h k) (hpc : (s.x.s.cons k j).pc = .handle) (hi : (s.x.s.cons k j).i ≤ (s.x.s.cons k j).avail) :
+    ∀ q a, (q, a) ∈ s.x.written → q % s.x.s.n = (s.x.s.cons k j).i % s.x.s.n → KnowsW s.x.written (s.vcC k j) q := by
+  obtain ⟨hx, e, hn⟩ := hmreachable_x hr
+  have hS := mreachableWF_safe hx e hn
+  have hL := RingMultiHB.mreachableWF_log hx e hn
+  have hP := RingMultiHB.mreachableWF_past hx e hn
+  intro q a hq hres
+  obtain ⟨h1, h2⟩ := RingMultiHB.earlier_write_le_handled s.x hS hL hP k j hk hj hpc q a hq hres
+  exact ((c05_multi_race_free_reachable hr).reader k j hk hj hpc hi).pw q h1 h2
+
+/-- non-vacuity of (g): ring of 4, two stages, two writer threads. Writer 0 wrote 1, 2, 4, writer 1 wrote 3; now writer 1 is
+about to write 5 (slot 1, previously sequence 1 of writer 0), writer 0 is about to write 6 (slot 2), the stage-0 handler is
+about to handle 4 -/
+def demoMultiSched : List MTid :=
+  List.replicate 23 (MTid.writer 0) ++ List.replicate 19 (MTid.writer 1) ++ List.replicate 10 (MTid.cons 0 0) ++
+  List.replicate 10 (MTid.cons 1 0) ++ List.replicate 19 (MTid.writer 0) ++ List.replicate 6 (MTid.writer 1) ++
+  List.replicate 3 (MTid.cons 0 0) ++ List.replicate 6 (MTid.writer 0)
+
+def demoMultiHB : HMSt := RingMultiHB.runSrc (mkMH (2 ^ 2) 2 (fun _ => 1) false [[2, 1, 1], [1, 1]]) demoMultiSched
+
+theorem demoMultiHB_reachable : HMReachable demoMultiHB :=
+  ⟨2, 2, fun _ => 1, false, [[2, 1, 1], [1, 1]], demoMultiSched, by decide, fun _ _ => Nat.one_pos, by decide, rfl⟩
+
+example : (demoMultiHB.x.wr 0).pc = .write ∧ (demoMultiHB.x.wr 0).w = 6 ∧ (demoMultiHB.x.wr 0).hi = 6 ∧
+    (demoMultiHB.x.wr 1).pc = .write ∧ (demoMultiHB.x.wr 1).w = 5 ∧ (demoMultiHB.x.wr 1).hi = 5 ∧
+    demoMultiHB.x.written = [(1, 0), (2, 0), (3, 1), (4, 0)] ∧ demoMultiHB.x.s.cursor = 4 ∧
+    (demoMultiHB.x.s.cons 0 0).pc = .handle ∧ (demoMultiHB.x.s.cons 0 0).i = 4 ∧ (demoMultiHB.x.s.cons 0 0).avail = 4 ∧
+    -- the handler knows all three writes of writer 0 (sequence 4 is the third) and the one of writer 1
+    (demoMultiHB.vcC 0 0).pw 0 = 3 ∧ (demoMultiHB.vcC 0 0).pw 1 = 1 ∧
+    -- writer 1, about to overwrite sequence 1 (writer 0's first write), knows two writes of writer 0 and three accesses of
+    -- either handler
+    (demoMultiHB.vcW 1).pw 0 = 2 ∧ (demoMultiHB.vcW 1).ha 0 0 = 3 ∧ (demoMultiHB.vcW 1).ha 1 0 = 3 := by
+  decide +kernel
+
+/-- the theorems applied to that state -/
+example : ∃ a m, (wlog demoMultiHB.x.written a)[m]? = some 4 ∧ m < (demoMultiHB.vcC 0 0).pw a := by
+  have hi4 : (demoMultiHB.x.s.cons 0 0).i = 4 := by decide +kernel
+  have := (c05_multi_reader_knows demoMultiHB_reachable 0 0 (by decide +kernel) (by decide +kernel) (by decide +kernel)
+    (by decide +kernel)).1
+  rw [hi4] at this
+  exact this
+
+/-- writer 1, about to overwrite slot 1, knows the only write made to that slot so far: sequence 1, writer 0's first write -/
+example : KnowsW demoMultiHB.x.written (demoMultiHB.vcW 1) 1 := by
+  have hw5 : (demoMultiHB.x.wr 1).w = 5 := by decide +kernel
+  have hn : demoMultiHB.x.s.n = 4 := by decide +kernel
+  have hmem : (1, 0) ∈ demoMultiHB.x.written := by decide +kernel
+  exact (c05_multi_writer_knows_slot_history demoMultiHB_reachable 1 (by decide +kernel) (by decide +kernel)
+    (by decide +kernel)).1 1 0 hmem (by rw [hw5, hn])
+
+/-! ### the ordering table is load-bearing -/
+
+/-- one writer claims, writes and publishes sequence 1, the handler waits for it -/
+def casSched : List MTid := List.replicate 18 (MTid.writer 0) ++ List.replicate 4 (MTid.cons 0 0)
+
+/-- a run in which the handler is about to handle sequence 1 (written by writer 0 only) while its clock knows no write of
+writer 0 violates the reader obligation -/
+theorem not_raceFree_of (r : HMSt) (W0 : List (Nat × Nat)) (hk : 0 < r.x.s.K) (hj : 0 < r.x.s.h 0)
+    (hpc : (r.x.s.cons 0 0).pc = .handle) (h1 : 1 ≤ (r.x.s.cons 0 0).i) (hi : (r.x.s.cons 0 0).i ≤ (r.x.s.cons 0 0).avail)
+    (hW : r.x.written = W0) (hmem : ∀ a, (1, a) ∈ W0 → a = 0) (hv : (r.vcC 0 0).pw 0 = 0) : ¬ RaceFreeM r := by
+  intro h
+  obtain ⟨a, ha, hpos⟩ := RingMultiHB.knowsW_mem ((h.reader 0 0 hk hj hpc hi).pw 1 (Nat.le_refl _) h1)
+  rw [hW] at ha
+  have := hmem a ha
+  subst this
+  omega
+
+/-- the same schedule with the **success ordering of `compare_and_swap` weakened to `Acquire`** (everything else as in the
+source) -/
+def relaxedCasRun : HMSt := runMH { srcOrds with casOk := .acquire } (mkMH 4 1 (fun _ => 1) false [[1]]) casSched
+
+/-- **C05 (g), the table is load-bearing**: were the successful CAS on the cursor `Acquire` only (or `Relaxed`), the handler
+would be about to read slot 1 without knowing writer 0's write of it — the reader obligation R1 fails on a concrete schedule.
+This is also what the check reports when the ordering is weakened in the source. -/
+theorem c05_multi_relaxed_cas_races : ¬ RaceFreeM relaxedCasRun :=
+  not_raceFree_of _ [(1, 0)] (by decide +kernel) (by decide +kernel) (by decide +kernel) (by decide +kernel)
+    (by decide +kernel) (by decide +kernel) (by simp) (by decide +kernel)
+
+/-- two writers: writer 0 claims 1, writer 1 claims 2; writer 0 writes its slot and sets its bit; writer 1 writes, sets its bit,
+scans both bits and releases 1 … 2 with its CAS; the handler waits for the cursor and is about to handle 1 — writer 0's write
+reaches it only through the bitmap word -/
+def relaySched : List MTid :=
+  List.replicate 6 (MTid.writer 0) ++ List.replicate 6 (MTid.writer 1) ++ List.replicate 3 (MTid.writer 0) ++
+  List.replicate 14 (MTid.writer 1) ++ List.replicate 4 (MTid.cons 0 0)
+
+/-- … with a `Relaxed` `fetch_or` in `BitMap::set` -/
+def relaxedOrRun : HMSt := runMH { srcOrds with bOr := .relaxed } (mkMH 4 1 (fun _ => 1) false [[1], [1]]) relaySched
+
+theorem c05_multi_relaxed_fetch_or_races : ¬ RaceFreeM relaxedOrRun :=
+  not_raceFree_of _ [(1, 0), (2, 1)] (by decide +kernel) (by decide +kernel) (by decide +kernel) (by decide +kernel)
+    (by decide +kernel) (by decide +kernel) (by simp) (by decide +kernel)
+
+/-- … with the CAS weakened, on the relay schedule -/
+def relaxedCasRelayRun : HMSt :=
+  runMH { srcOrds with casOk := .acquire } (mkMH 4 1 (fun _ => 1) false [[1], [1]]) relaySched
+
+theorem c05_multi_relaxed_cas_races_relay : ¬ RaceFreeM relaxedCasRelayRun :=
+  not_raceFree_of _ [(1, 0), (2, 1)] (by decide +kernel) (by decide +kernel) (by decide +kernel) (by decide +kernel)
+    (by decide +kernel) (by decide +kernel) (by simp) (by decide +kernel)
+
+/-- the relay schedule with the orderings of the source, and with a `Relaxed` load in `BitMap::is_set`: in both the handler
+knows writer 0's write. The proof of (g) uses the acquire side of the scan's load (`bmLoad`); the publisher's `fetch_and` on
+the same words (`bmAnd`, before its CAS) would carry the same edge, so the scan's ordering alone is *not* load-bearing — a
+weakened `bmLoad` breaks the proof obligation `c05_multi_orderings_used` although this model run stays ordered. -/
+def relaySrcRun : HMSt := RingMultiHB.runSrc (mkMH 4 1 (fun _ => 1) false [[1], [1]]) relaySched
+def relaxedScanRun : HMSt := runMH { srcOrds with bLoad := .relaxed } (mkMH 4 1 (fun _ => 1) false [[1], [1]]) relaySched
+
+example : (relaySrcRun.x.s.cons 0 0).pc = .handle ∧ (relaySrcRun.x.s.cons 0 0).i = 1 ∧ (relaySrcRun.x.wr 0).pc = .setBit ∧
+    relaySrcRun.x.s.cursor = 2 ∧ (relaySrcRun.vcC 0 0).pw 0 = 1 ∧ (relaySrcRun.vcC 0 0).pw 1 = 1 ∧
+    (relaxedScanRun.vcC 0 0).pw 0 = 1 ∧ (relaxedOrRun.vcC 0 0).pw 0 = 0 ∧ (relaxedOrRun.vcC 0 0).pw 1 = 1 := by
+  decide +kernel
+
+/-- the same schedule with the orderings of the source: the handler knows the write -/
+def sourceCasRun : HMSt := RingMultiHB.runSrc (mkMH 4 1 (fun _ => 1) false [[1]]) casSched
+
+example : (sourceCasRun.x.s.cons 0 0).pc = .handle ∧ (sourceCasRun.x.s.cons 0 0).i = 1 ∧ (sourceCasRun.vcC 0 0).pw 0 = 1 ∧
+    (relaxedCasRun.x.s.cons 0 0).pc = .handle ∧ (relaxedCasRun.x.s.cons 0 0).i = 1 ∧ (relaxedCasRun.vcC 0 0).pw 0 = 0 := by
+  decide +kernel
+
+end MultiHB
 
 end C05
